@@ -7,4 +7,7 @@ import c11_core
 
 
 def run(ctx, replay):
+    if replay:
+        c11_core.replay_core(ctx, replay)
+        return
     c11_core.run_core(ctx)
